@@ -57,15 +57,18 @@ Definition logged (log : list logline) (f : str) : Prop := exists g, In g log /\
 
 Definition op_justified (log : list logline) (op : fsop) : Prop :=
   match op with
+  | OpCreateExcl p => exists f, p = f ++ tmp_suffix /\ logged log f
   | OpWrite p _ => exists f, p = f ++ tmp_suffix /\ logged log f
+  | OpChmodLike p like => exists f, p = f ++ tmp_suffix /\ like = f /\ logged log f
   | OpRename a b => exists f, a = f ++ tmp_suffix /\ b = f /\ logged log f
+  | OpRemove p => exists f, p = f ++ tmp_suffix /\ logged log f
   | OpChmod p => exists g, In g log /\ g_file g = p /\ g_descr g = DChmod
   end.
 
 (* every temporary file is renamed onto its target right after it was written *)
 Inductive wpaired : list fsop -> Prop :=
 | wp_nil : wpaired []
-| wp_save f c ops : wpaired ops -> wpaired (OpWrite (f ++ tmp_suffix) c :: OpRename (f ++ tmp_suffix) f :: ops)
+| wp_save f c ops : wpaired ops -> wpaired (save_seq f c ++ ops)
 | wp_chmod p ops : wpaired ops -> wpaired (OpChmod p :: ops).
 
 Lemma wpaired_app a b : wpaired a -> wpaired b -> wpaired (a ++ b).
@@ -78,7 +81,10 @@ Lemma op_justified_mono log log' op : op_justified log op -> op_justified (log +
 Proof.
   destruct op; cbn.
   - intros (f & E & L). exists f. split; [exact E|apply logged_mono; exact L].
-  - intros (f & E1 & E2 & L). exists f. repeat split; try assumption. apply logged_mono; exact L.
+  - intros (f & E & L). exists f. split; [exact E|apply logged_mono; exact L].
+  - intros (f & E1 & E2 & L). exists f. split; [exact E1|]. split; [exact E2|apply logged_mono; exact L].
+  - intros (f & E1 & E2 & L). exists f. split; [exact E1|]. split; [exact E2|apply logged_mono; exact L].
+  - intros (f & E & L). exists f. split; [exact E|apply logged_mono; exact L].
   - intros (g & H & E). exists g. split; [apply in_or_app; left; exact H|exact E].
 Qed.
 
@@ -195,10 +201,14 @@ Proof.
     unfold modified_logged in ML. rewrite Forall_forall in ML. exact (ML l Hl Hm). }
   induction (changed_files ls []) as [|f fs IH]; cbn [flat_map]; [split; constructor|].
   destruct IH as [IH1 IH2]; [intros; apply Hf; right; assumption|].
+  assert (Lf : logged log f) by (apply Hf; left; reflexivity).
   split.
-  - constructor; [exists f; split; [reflexivity|apply Hf; left; reflexivity]|].
-    constructor; [exists f; repeat split; apply Hf; left; reflexivity|exact IH1].
-  - cbn [app]. constructor. exact IH2.
+  - unfold save_seq. cbn [app].
+    constructor; [exists f; split; [reflexivity|exact Lf]|].
+    constructor; [exists f; split; [reflexivity|exact Lf]|].
+    constructor; [exists f; split; [reflexivity|split; [reflexivity|exact Lf]]|].
+    constructor; [exists f; split; [reflexivity|split; [reflexivity|exact Lf]]|exact IH1].
+  - constructor. exact IH2.
 Qed.
 
 Record fs_inv (st : state) : Prop := {
@@ -372,4 +382,113 @@ Proof.
   intros Ha F R l Hl Hm.
   pose proof (fi_logged _ (run_fs_inv o keys evs st st' Ha (fresh_fs_inv st F) R)) as ML.
   unfold modified_logged in ML. rewrite Forall_forall in ML. exact (ML l Hl Hm).
+Qed.
+
+(* ---------- one save, with faults ---------- *)
+
+(* the temporary files that exist after the operations *)
+Fixpoint remove_one (p : str) (l : list str) : list str :=
+  match l with
+  | [] => []
+  | x :: l' => if str_eqb p x then l' else x :: remove_one p l'
+  end.
+
+Fixpoint tmp_left (existing : list str) (ops : list fsop) : list str :=
+  match ops with
+  | [] => existing
+  | OpCreateExcl p :: r => tmp_left (p :: existing) r
+  | OpRename a _ :: r => tmp_left (remove_one a existing) r
+  | OpRemove p :: r => tmp_left (remove_one p existing) r
+  | _ :: r => tmp_left existing r
+  end.
+
+Lemma save_file_cases e f c :
+  let tmp := f ++ tmp_suffix in
+  save_file e f c = ([], false) \/
+  (exists mid last, fst (save_file e f c) = OpCreateExcl tmp :: mid ++ [last] /\
+     Forall (fun op => op = OpWrite tmp c \/ op = OpChmodLike tmp f) mid /\
+     ((last = OpRemove tmp /\ snd (save_file e f c) = false) \/
+      (last = OpRename tmp f /\ snd (save_file e f c) = true))).
+Proof.
+  intro tmp. unfold save_file. fold tmp.
+  destruct (e_tmp_exists e tmp); [left; reflexivity|right].
+  set (werr := e_write_fails e tmp). set (sf := e_stat_fails e f).
+  set (cf := e_chmod_fails e tmp). set (rf := e_rename_fails e tmp).
+  exists ((if werr then [] else [OpWrite tmp c]) ++
+          (if negb werr && negb sf && negb (negb werr && negb sf && cf) then [OpChmodLike tmp f] else [])),
+         (if werr || (negb werr && negb sf && cf) || rf then OpRemove tmp else OpRename tmp f).
+  destruct werr, sf, cf, rf; cbn; (split; [reflexivity|]);
+    (split; [repeat (apply Forall_cons; [first [left; reflexivity|right; reflexivity]|]); apply Forall_nil|]); auto.
+Qed.
+
+Lemma tmp_left_mid tmp f c mid : Forall (fun op => op = OpWrite tmp c \/ op = OpChmodLike tmp f) mid ->
+  forall ex rest, tmp_left ex (mid ++ rest) = tmp_left ex rest.
+Proof.
+  induction 1 as [|op mid [->| ->] _ IH]; intros ex rest; cbn [app tmp_left]; auto.
+Qed.
+
+Lemma save_file_balanced e f c ex rest :
+  tmp_left ex (fst (save_file e f c) ++ rest) = tmp_left ex rest.
+Proof.
+  destruct (save_file_cases e f c) as [E|(mid & last & E & M & L)].
+  - rewrite E. reflexivity.
+  - rewrite E. cbn [app tmp_left]. rewrite <- app_assoc, (tmp_left_mid _ _ _ _ M).
+    destruct L as [[-> _]|[-> _]]; cbn [app tmp_left remove_one]; rewrite str_eqb_refl; reflexivity.
+Qed.
+
+(* whatever fails: no temporary file is left behind by SaveAutofixChanges *)
+Theorem no_tmp_left_faults e o ls : tmp_left [] (fst (save_env e o ls)) = [].
+Proof.
+  unfold save_env. destruct (negb (o_autofix o)); [reflexivity|]. cbn [fst].
+  induction (changed_files ls []) as [|f fs IH]; [reflexivity|].
+  cbn [map flat_map]. rewrite save_file_balanced. exact IH.
+Qed.
+
+(* when the temporary file cannot be created exclusively, nothing is touched *)
+Theorem create_fails_untouched e f c :
+  e_tmp_exists e (f ++ tmp_suffix) = true -> save_file e f c = ([], false).
+Proof. intro H. unfold save_file. rewrite H. reflexivity. Qed.
+
+(* a file is only replaced by a temporary file that carries its bytes and, if the
+   original could be examined, its mode *)
+Theorem saved_with_mode e f c :
+  snd (save_file e f c) = true -> e_stat_fails e f = false -> fst (save_file e f c) = save_seq f c.
+Proof.
+  unfold save_file, save_seq. destruct (e_tmp_exists e (f ++ tmp_suffix)); [discriminate|].
+  destruct (e_write_fails e (f ++ tmp_suffix)), (e_stat_fails e f), (e_chmod_fails e (f ++ tmp_suffix)),
+    (e_rename_fails e (f ++ tmp_suffix)); cbn; intros; try discriminate; reflexivity.
+Qed.
+
+(* every operation of a save concerns f.pkglint.tmp of a changed file f; only the
+   rename touches f itself *)
+Definition op_on_changed (fs : list str) (op : fsop) : Prop :=
+  match op with
+  | OpCreateExcl p | OpWrite p _ | OpRemove p => exists f, In f fs /\ p = f ++ tmp_suffix
+  | OpChmodLike p like => exists f, In f fs /\ p = f ++ tmp_suffix /\ like = f
+  | OpRename a b => exists f, In f fs /\ a = f ++ tmp_suffix /\ b = f
+  | OpChmod _ => False
+  end.
+
+Theorem save_env_touches_only_changed e o ls :
+  Forall (op_on_changed (changed_files ls [])) (fst (save_env e o ls)).
+Proof.
+  unfold save_env. destruct (negb (o_autofix o)); [constructor|]. cbn [fst].
+  assert (G : forall fs all, (forall f, In f fs -> In f all) ->
+            Forall (op_on_changed all) (flat_map fst (map (fun f => save_file e f (file_content f ls)) fs))).
+  { induction fs as [|f fs IH]; intros all Hall; [constructor|]. cbn [map flat_map].
+    apply Forall_app. split; [|apply IH; intros; apply Hall; right; assumption].
+    assert (Hf : In f all) by (apply Hall; left; reflexivity).
+    destruct (save_file_cases e f (file_content f ls)) as [E|(mid & last & E & M & L)]; rewrite E; [constructor|].
+    constructor; [exists f; auto|]. apply Forall_app. split.
+    - eapply Forall_impl; [|exact M]. intros op [->| ->]; exists f; auto.
+    - constructor; [|constructor]. destruct L as [[-> _]|[-> _]]; exists f; auto. }
+  apply G. auto.
+Qed.
+
+Lemma save_env_no_faults o ls : save_env no_faults o ls = save o ls.
+Proof.
+  unfold save_env, save. destruct (negb (o_autofix o)); [reflexivity|].
+  induction (changed_files ls []) as [|f fs IH]; [reflexivity|].
+  cbn [map flat_map existsb]. inversion IH as [[H1 H2]]. rewrite H1.
+  unfold save_file at 1 3. cbn. reflexivity.
 Qed.
